@@ -184,3 +184,60 @@ func simpFuzz(nTerms int, seed int64) bool {
 	fmt.Printf("selftest: %d random terms, %d evaluations: simplified = raw, bounds contain the values\n", nTerms, evals)
 	return true
 }
+
+// printerFuzz: the SMT-LIB printing of every operator means what the evaluator computes: for random
+// raw terms and assignments, (vars = assignment) and (term != evaluated constant) must be unsat.
+func printerFuzz(nTerms int, seed int64) bool {
+	ts := NewTermStore()
+	g := &fuzzGen{ts: ts, rng: rand.New(rand.NewSource(seed)), vars: map[int][]*Term{}}
+	var all []*Term
+	for _, w := range fuzzWidths {
+		for i := 0; i < 2; i++ {
+			v := ts.Var(fmt.Sprintf("p%d_%d", w, i), w)
+			g.vars[w] = append(g.vars[w], v)
+			all = append(all, v)
+		}
+	}
+	s, err := NewSolver("z3-new", 20000)
+	if err != nil {
+		fmt.Println("selftest: cannot start z3-new", err)
+		return false
+	}
+	defer s.Close()
+	for n := 0; n < nTerms; n++ {
+		var raw *Term
+		if n%4 == 0 {
+			raw, _ = g.boolean(2)
+		} else {
+			raw, _ = g.bv(fuzzWidths[1+g.rng.Intn(len(fuzzWidths)-1)], 3)
+		}
+		m := Model{}
+		as := []*Term{}
+		for _, v := range all {
+			m[v.name] = g.konst(v.w)
+			if v.w == 1 {
+				as = append(as, ts.mk(OpEq, 0, 0, "", v, ts.Const(1, m[v.name])))
+			} else {
+				as = append(as, ts.mk(OpEq, 0, 0, "", v, ts.Const(v.w, m[v.name])))
+			}
+		}
+		val := NewEvaluator(m).Eval(raw)
+		var neq *Term
+		if raw.w == 0 {
+			neq = raw
+			if val != 0 {
+				neq = ts.mk(OpNot, 0, 0, "", raw)
+			}
+		} else {
+			neq = ts.mk(OpNot, 0, 0, "", ts.mk(OpEq, 0, 0, "", raw, ts.Const(raw.w, val)))
+		}
+		s.stack = nil
+		r, _, err := s.Check(append(as, neq), nil)
+		if err != nil || r != Unsat {
+			fmt.Printf("selftest: solver and evaluator disagree on %s under %v: evaluator %d, solver says %v %v\n", raw, m, val, r, err)
+			return false
+		}
+	}
+	fmt.Printf("selftest: %d random terms: the solver's reading of the printed term equals the evaluator's value\n", nTerms)
+	return true
+}
